@@ -154,6 +154,10 @@ type Discharger struct {
 // others only if it is not definitive. Thorough: all three, at least two must
 // say unsat and none sat.
 func (d *Discharger) discharge(o *Obligation, ar *Arith) {
+	if o.Status != "" {
+		// decided without a solver (ownership rules over the typed AST)
+		return
+	}
 	if o.Goal.IsTrue() {
 		o.Status, o.Solver = "unsat", "simplifier"
 		return
